@@ -52,7 +52,12 @@ def main():
         if aud["build_ok"]:
             mod.run(ctx)
         else:
-            mod.run_impl_only(ctx) if hasattr(mod, "run_impl_only") else None
+            # the Lean project no longer builds: that alone is not a violation of the property.  Search for a
+            # failing input anyway, with the driver binary of the last successful build if there is one.
+            try:
+                mod.run(ctx)
+            except Exception:
+                ctx.notes.append("streams could not run without a working model driver: " + traceback.format_exc()[-400:])
         ctx.finalize(aud)
         common.write_evidence(ctx, aud, mod.THEOREMS, mod.TRUSTED_BASE, mod.ASSUMPTIONS, mod.RULE,
                               getattr(mod, "extra_evidence", lambda c: None)(ctx))
